@@ -104,7 +104,7 @@ def scopes : List (Option Scope) :=
   [none, some .vm, some (.rel .auth), some (.rel .asrt), some (.rel .keyAgr), some (.rel .capDel), some (.rel .capInv)]
 
 def idUniverse (nd np nf : Nat) : List Id :=
-  (List.range nd).flatMap fun d => (List.range np).flatMap fun p => (List.range nf).map fun f => ⟨d, p, some (f + 1)⟩
+  (List.range nd ++ [50]).flatMap fun d => (List.range np).flatMap fun p => (List.range nf).map fun f => ⟨d, p, some (f + 1)⟩
 
 def showOM : Option Method → String
   | none => ""
